@@ -468,6 +468,10 @@ class Project(MessageHandler):
             length = task.get("length", scIdx) or 0
             start = task.get("start", scIdx)
             end = task.get("end", scIdx)
+            if start and not task.provided("start", scIdx):
+                # Inherited from an enclosing container: only a lower bound, the task
+                # still has to wait for its dependencies in the main loop
+                start = None
 
             # Implicit milestone: has start/end but no duration metrics
             is_implicit_milestone = (start or end) and effort == 0 and duration == 0 and length == 0
